@@ -4,9 +4,10 @@
     [Print Assumptions].  All statements are about [gen_fnsym_facts], the facts REGENERATED from
     /repo/src/mxlpy/meta/source_tools.py on every run; [C06_facts_pinned] is the obligation that
     breaks when an operator table, the comparison table (symbolic Eq/Ne), [simultaneous=True],
-    the tuple-assignment order, the treatment of unknown statements / keyword arguments, the
-    shape of the if/return/assign blocks of [_handle_fn_body] (which table each branch of an if is
-    translated on) or the moment module constants are read is edited.
+    the tuple-assignment order, the treatment of unknown statements / keyword arguments (refused, or
+    their values appended positionally), the shape of the if/return/assign blocks of [_handle_fn_body]
+    (which table each branch of an if is translated on; whether an assignment whose right-hand side has
+    no expression refuses or stores the None) or the moment module constants are read is edited.
 
     Reading guide: [fds] is a module (list of definitions, calls go to earlier ones);
     [py_call fds i vs] is the value CPython gives function i on arguments vs ([None] = no numeric
@@ -20,7 +21,7 @@ Theorem C06_facts_pinned :
     [(Add, Add); (Sub, Sub); (Mul, Mul); (Div, Div); (Pow, Pow); (Mod, Mod); (FloorDiv, FloorDiv)]
     [(UAdd, UAdd); (USub, USub)]
     [(Gt, RelGt); (GtE, RelGe); (Lt, RelLt); (LtE, RelLe); (CEq, RelEq); (CNe, RelNe)]
-    true SubsSim TupSim StmtRaise (CfContinuation BrCopy BrCopy) true true true ConstAtCall C06_expected_fallback C06_expected_arity.
+    true SubsSim TupSim StmtRaise (CfContinuation BrCopy BrCopy) KwRefused true true ConstAtCall C06_expected_fallback C06_expected_arity AnRefuse.
 Proof. vm_compute. reflexivity. Qed.
 Print Assumptions C06_facts_pinned.
 
@@ -375,3 +376,87 @@ Example C06_defaults_nonvacuous :
     seval (fun x => assoc x [(3%N, 2#1); (1%N, 3#2)]) e = Some (6#5).
 Proof. exact defaults_nonvacuous. Qed.
 Print Assumptions C06_defaults_nonvacuous.
+
+(** KEYWORD ARGUMENTS of nested calls.  PyLang gives a keyword call its Python meaning: all argument expressions are
+    evaluated as written, then bound BY NAME ([slots]: which callee parameter each written argument goes to); the
+    shipped translator refuses every keyword call ([C06_refusal_visible_expr]: [unsupported_e (ECallKw ..) = true]).
+    (a) written in parameter order a keyword call means the positional call -- for every callee table, every state;
+    (b) regression (seeded C06-7): a translator that APPENDS the keyword values to the positional arguments in the
+        written order and binds them positionally is wrong on `mm(s, vmax=v, km=k)` and `mm(vmax=v, s=s, km=k)` for
+        `def mm(s, km, vmax)`: Python 3/2 at (s, k, v) = (1, 1, 3), the expressions give 1/4 and 3/4. *)
+Theorem C06_keywords_in_parameter_order_are_positional :
+  forall F G rho f args,
+    eval F G rho (ECallKw f (seq 0 (elen args)) args) = eval F G rho (ECall f args).
+Proof. exact keywords_in_parameter_order. Qed.
+Print Assumptions C06_keywords_in_parameter_order_are_positional.
+
+Theorem C06_keywords_appended_refuted :
+  (exists e,
+    fn_to_sympy (facts_kw KwAppended) [w_mm; w_kw_other_order] 1 [SSym 1%N; SSym 4%N; SSym 5%N] = Some e /\
+    py_call [w_mm; w_kw_other_order] 1 [1#1; 1#1; 3#1] = Some (3#2) /\
+    Forall2 (fun m x => seval kw_rho m = Some x) [SSym 1%N; SSym 4%N; SSym 5%N] [1#1; 1#1; 3#1] /\
+    seval kw_rho e <> Some (3#2)) /\
+  (exists e,
+    fn_to_sympy (facts_kw KwAppended) [w_mm; w_kw_only] 1 [SSym 1%N; SSym 4%N; SSym 5%N] = Some e /\
+    py_call [w_mm; w_kw_only] 1 [1#1; 1#1; 3#1] = Some (3#2) /\
+    seval kw_rho e <> Some (3#2)).
+Proof. exact keywords_appended_wrong. Qed.
+Print Assumptions C06_keywords_appended_refuted.
+
+(** non-vacuity: the three callers have the value Python gives them (3/2 = mm(1, 1, 3), not mm(1, 3, 1) = 1/4), the
+    shipped facts refuse all three, and in parameter order even the appending translator is right *)
+Example C06_keywords_nonvacuous :
+  fn_to_sympy expected_facts [w_mm; w_kw_other_order] 1 [SSym 1%N; SSym 4%N; SSym 5%N] = None /\
+  fn_to_sympy expected_facts [w_mm; w_kw_only] 1 [SSym 1%N; SSym 4%N; SSym 5%N] = None /\
+  fn_to_sympy expected_facts [w_mm; w_kw_param_order] 1 [SSym 1%N; SSym 4%N; SSym 5%N] = None /\
+  py_call [w_mm; w_kw_other_order] 1 [1#1; 1#1; 3#1] = Some (3#2) /\
+  py_call [w_mm; w_kw_only] 1 [1#1; 1#1; 3#1] = Some (3#2) /\
+  py_call [w_mm; w_kw_param_order] 1 [1#1; 1#1; 3#1] = Some (3#2) /\
+  py_call [w_mm] 0 [1#1; 3#1; 1#1] = Some (1#4) /\
+  (exists e, fn_to_sympy (facts_kw KwAppended) [w_mm; w_kw_param_order] 1 [SSym 1%N; SSym 4%N; SSym 5%N] = Some e /\
+             seval kw_rho e = Some (3#2)).
+Proof. exact keywords_witnesses. Qed.
+Print Assumptions C06_keywords_nonvacuous.
+
+(** AN ASSIGNMENT WITHOUT AN EXPRESSION REFUSES THE BODY -- whatever made the right-hand side fail (an unsupported
+    node, a refused callee, an arity mismatch, a call of something that is not a function of the module): the
+    translator never goes on with a name it could not bind.  Semantic counterpart of [C06_refusal_visible_body]
+    (which is about syntactically unsupported nodes). *)
+Theorem C06_untranslatable_assignment_refuses :
+  forall S G fuel body rest sigma,
+    (forall x e, texpr gen_fnsym_facts S G sigma e = None ->
+       tbody gen_fnsym_facts S G (Datatypes.S fuel) body (SCons (SAssign x e) rest) sigma = TRefused) /\
+    (forall xs es, ttuple gen_fnsym_facts S G sigma xs es = None ->
+       tbody gen_fnsym_facts S G (Datatypes.S fuel) body (SCons (STuple xs es) rest) sigma = TRefused).
+Proof. exact (assign_without_expression_refuses gen_fnsym_facts C06_facts_pinned). Qed.
+Print Assumptions C06_untranslatable_assignment_refuses.
+
+(** regression (seeded C06-6): when the None of such a right-hand side is STORED in the symbol table, _handle_name's
+    `ctx.symbols.get(id) is None` takes the local for "not a local" and reads the module constant of the same name:
+    `vmax = scaled(s); return vmax * s` with the module constant vmax = 10 and `def scaled(x, n=2.0)` (the call relies
+    on the default: no expression) becomes 10 * s, Python computes 2 * s * s (18 vs 30 at s = 3). *)
+Theorem C06_stored_none_refuted :
+  exists e rho,
+    fn_to_sympy (facts_assign AnStore) [w_scaled; w_rate] 1 [SSym 7%N] = Some e /\
+    py_call [w_scaled; w_rate] 1 [3#1] = Some (18#1) /\
+    Forall2 (fun m x => seval rho m = Some x) [SSym 7%N] [3#1] /\
+    seval rho e <> Some (18#1).
+Proof. exact stored_none_wrong. Qed.
+Print Assumptions C06_stored_none_refuted.
+
+(** the shapes around it: the shipped rule refuses; `vmax = round(s)` (no function of the module) gets the constant
+    substituted under the storing rule; without a constant of that name the read is a KeyError (no expression); a
+    translatable local shadows the constant under either rule, as in Python (non-vacuity of the soundness theorem for
+    locals named like module constants) *)
+Example C06_stored_none_shapes :
+  fn_to_sympy expected_facts [w_scaled; w_rate] 1 [SSym 7%N] = None /\
+  fn_to_sympy expected_facts [w_scaled; w_rate_round] 1 [SSym 7%N] = None /\
+  fn_to_sympy (facts_assign AnStore) [w_scaled; w_rate_round] 1 [SSym 7%N] = Some (SBin Mul (SNum (10#1)) (SSym 7%N)) /\
+  fn_to_sympy (facts_assign AnStore) [w_scaled; w_rate_other] 1 [SSym 7%N] = None /\
+  fn_to_sympy (facts_assign AnStore) [w_scaled; w_rate_local] 1 [SSym 7%N] =
+    fn_to_sympy expected_facts [w_scaled; w_rate_local] 1 [SSym 7%N] /\
+  (exists e, fn_to_sympy expected_facts [w_scaled; w_rate_local] 1 [SSym 7%N] = Some e /\
+             py_call [w_scaled; w_rate_local] 1 [3#1] = Some (18#1) /\
+             seval (fun x => assoc x [(7%N, 3#1)]) e = Some (18#1)).
+Proof. exact stored_none_shapes. Qed.
+Print Assumptions C06_stored_none_shapes.
